@@ -148,8 +148,12 @@ func (p *BundlePropertyExperimenter) UnmarshalBinary(data []byte) error {
 	n += 4
 	p.ExperimenterType = binary.BigEndian.Uint32(data[n:])
 	n += 4
-	if len(data) < int(p.Length) {
-		p.data = data[n:]
+	if int(p.Length) > n {
+		if int(p.Length) > len(data) {
+			return errors.New("the bundle property length exceeds the []byte")
+		}
+		p.data = make([]byte, int(p.Length)-n)
+		copy(p.data, data[n:p.Length])
 	}
 	return nil
 }
@@ -215,6 +219,9 @@ func (b *BundleAdd) MarshalBinary() (data []byte, err error) {
 func (b *BundleAdd) UnmarshalBinary(data []byte) error {
 	var err error
 	n := 0
+	if len(data) < 8 {
+		return errors.New("the []byte is too short to unmarshal a BundleAdd header")
+	}
 	b.BundleID = binary.BigEndian.Uint32(data[n:])
 	n += 4
 	// skip padding bytes
@@ -224,6 +231,9 @@ func (b *BundleAdd) UnmarshalBinary(data []byte) error {
 	b.Message, err = Parse(data[n:])
 	if err != nil {
 		return err
+	}
+	if b.Message == nil {
+		return errors.New("unsupported message type in a BundleAdd")
 	}
 	n += int(b.Message.Len())
 	if n < len(data) {
@@ -283,6 +293,9 @@ func (e *VendorError) MarshalBinary() (data []byte, err error) {
 func (e *VendorError) UnmarshalBinary(data []byte) error {
 	n := 0
 	e.ErrorMsg = new(ErrorMsg)
+	if len(data) < 16 {
+		return errors.New("the []byte is too short to unmarshal a VendorError header")
+	}
 	err := e.Header.UnmarshalBinary(data[n:])
 	if err != nil {
 		return err
